@@ -576,10 +576,12 @@ bool apply(int op, uint8_t a, uint8_t b, uint8_t c, int ntab, size_t K, size_t m
         LIB(cstl_hash_shrink_to_fit(&t.h));
         bool failed = alloc_failures() != f0;
         TRACE("%s shrink_to_fit%s", t.tag, failed ? " [allocation failed]" : "");
+        // (whether releasing the excess also completes a pending rehash is not documented: any hash calls must be
+        // relocations into the requested geometry, and a completion shows up at the next keyed operation. How much the
+        // table had allocated is its own business too -- one that over-allocates has something to release, and a rehash to
+        // finish first, where the model's idea of the capacity says there is nothing to do: the log is read in every case)
+        c19_forced(t);
         if (will) {
-            // (whether releasing the excess also completes a pending rehash is not documented: any hash calls must be
-            // relocations into the requested geometry, and a completion shows up at the next keyed operation)
-            c19_forced(t);
             if (!failed) t.cap = t.tgt_n;
             else CNT("class.shrink.alloc_failed");
         }
